@@ -136,6 +136,13 @@ def rule_nullable_table(a: Analysis, rule_id: str) -> RuleReport:
         ("rule a = {a}+ 't' | 't' (self reference under a positive closure)", rec_rules['a'], False, False),
         ("rule m = {n}+ 't' | 't' ; n = {m}+ (mutual reference)", rec_rules['m'], False, False),
     ]
+    nsafe = a.p.functions.get('tatsu.peg.leftrec.pegen._is_nullable_safe')
+    cases += [
+        ('Sequence(Sequence(void, token), void)', b.seq(b.seq(b.void(), b.tok()), b.void()), False, False),
+        ('Sequence(Choice(token | void), void)', b.seq(b.choice(b.tok(), b.void()), b.void()), True, False),
+        ('Choice(Sequence(void, token) | token)', b.choice(b.seq(b.void(), b.tok()), b.tok()), False, False),
+        ('Group(Choice(token | void))', b.box('Group', b.choice(b.tok(), b.void())), True, False),
+    ]
     for what, node, want, info in cases:
         try:
             got = _nullable(a, node)
@@ -148,7 +155,17 @@ def rule_nullable_table(a: Analysis, rule_id: str) -> RuleReport:
                          f'RecursionError instead of returning a model or a grammar error', m_.loc if m_ else '')
                 continue
             raise AnalysisError(f'cannot interpret is_nullable of {what}: {e}') from e
-        rep.add({'node': what, 'is_nullable': got, 'table': want, 'informational': info})
+        # the analysis asks through its own helper (which looks into sequences and choices itself): same table, calls excepted
+        safe = None
+        if nsafe is not None and not info and 'Call' not in what and 'rule ' not in what:
+            try:
+                safe = bool(ModelInterp(a).call_fn(nsafe, [node]))
+            except Unsupported as e:
+                raise AnalysisError(f'cannot interpret _is_nullable_safe on {what}: {e}') from e
+            if safe != want:
+                rep.fail(nsafe.qualname, f'nullable-safe:{what}', f'pegen._is_nullable_safe({what}) = {safe}, the parse primitives make it {want}: the left-call '
+                         f'extraction {"stops before" if want else "looks past"} such an element', nsafe.loc)
+        rep.add({'node': what, 'is_nullable': got, '_is_nullable_safe': safe, 'table': want, 'informational': info})
         if got != want:
             cq = node._cls
             f = Finding(rep.rule, cq, f'nullable:{what}', f'{what}.is_nullable() = {got}, the parse primitives make it {want}: the '
@@ -368,6 +385,12 @@ def rule_all_small_graphs(a: Analysis, rule_id: str, tier: str) -> RuleReport:
             res = it.call_fn(fn, [rules])
         except Unsupported as e:
             raise AnalysisError(f'cannot interpret mark_left_recursion on graph {sorted(edges)}: {e}') from e
+        except Raised as e:
+            gtxt = ' '.join(f'{u}->{v}' for u, v in sorted(edges)) or '(no edges)'
+            rep.add({'graph': gtxt, 'raises': e.cls_name})
+            rep.fail(fn.qualname, f'raises:{e.cls_name}', f'graph [{gtxt}]: mark_left_recursion raises {e.cls_name} (line {getattr(e.node, "lineno", "?")}): '
+                     f'compiling this grammar fails with a foreign exception', fn.loc)
+            continue
         marked = {r._attrs['name'] for r in rules if r._attrs['is_lrec']}
         memo = {r._attrs['name'] for r in rules if r._attrs['is_memo']}
         returned = {r._attrs['name'] for r in res}
